@@ -118,7 +118,7 @@ def check_case(rec, case):
             return
     # the notebook generator's route: file -> parse_nfa -> nfa_to_dfa -> print_dfa ; the text
     # must read back (with the set-label convention) as an equivalent total DFA
-    if case.get('notebook') and case['eps'] and len(R[1]) > 0:
+    if case.get('notebook') and case['eps'] and len(R[1]) > 0 and all(re.fullmatch(r'\w', x) for x in R[1]) and all(re.fullmatch(r'\w+', q) for q in R[0]):
         mk = env.make_notebook_module()
         fd, path = tempfile.mkstemp(suffix='.nfa', prefix='vt_c03_')
         try:
